@@ -169,9 +169,13 @@ def hyp_programs(ctx, n_examples, max_groups):
 
 
 def selftest():
-    xs, _ = parse('>>> x = 1\n>>> print(x)\n1\n')
-    assert len(xs) == 1
-    assert canon(xs[0]) == [(('x = 1', 'print(x)'), ('1',), 'eval')], canon(xs[0])
+    class P(object):
+        def __init__(self, e, w, m):
+            self.exec_lines, self.want_lines, self.compile_mode = e, w, m
+
+    class E(object):
+        _parts = [P(['x = 1', ''], None, 'exec'), P(['print(x)'], ['1'], 'eval'), P(['y = 2'], None, 'exec')]
+    assert canon(E) == [(('x = 1', 'print(x)'), ('1',), 'eval'), (('y = 2',), None, 'exec')]
 
 
 def jobs(tier):
